@@ -285,3 +285,11 @@ def run(ctx, rep):
             if gw is not None:
                 fail(rc, ctx, f, f.node, f"numeric field {field!r} can capture {gw[1]!r} (line {gw[0]!r}): int() is not total on it", witness=gw[0])
     check_pairwise_disjoint(ctx, rx_, impls, f, "metadata")
+    # ---- the [Song] lines reach the scan verbatim
+    from .chartrules import ChartRules
+    rr = rep.rule("route", "Metadata.from_chart_lines receives the [Song] section's own lines exactly as they are in the file "
+                           "(fp.read().splitlines(), framed by braces, no rewriting): values stay verbatim", floor=10)
+    C = ChartRules(ctx)
+    C.check_reading(rr)
+    C.check_framing(rr)
+    C.check_required(rr)
